@@ -48,8 +48,15 @@ class GateInterp:
         self.lits = {}       # local Lit variable -> (sign, sym)
         self.terms = {}      # local PTRef variable -> sym
         self.ints = set()
+        self.pterm_aliases = set()
 
     # ---- symbolic terms
+    def is_gate_pterm(self, base):
+        base = see_through(base)
+        if isinstance(base, dict) and base.get('k') == 'call' and mname(base) == 'getPterm' and base.get('a') and path_of(base['a'][0]) == self.param:
+            return True
+        return isinstance(base, dict) and base.get('k') == 'ref' and base['n'] in self.pterm_aliases
+
     def term_sym(self, e, loopvar=None):
         e = see_through(e)
         if not isinstance(e, dict):
@@ -62,7 +69,7 @@ class GateInterp:
             raise Unmodelled('unknown term variable %s' % e['n'])
         if e.get('k') == 'call' and e.get('op') == '[]':
             base = see_through(e['recv'])
-            if isinstance(base, dict) and base.get('k') == 'call' and mname(base) == 'getPterm' and base.get('a') and path_of(base['a'][0]) == self.param:
+            if self.is_gate_pterm(base):
                 idx = see_through(e['a'][0])
                 if isinstance(idx, dict) and idx.get('k') == 'lit':
                     return 'a%d' % idx['v']
@@ -125,6 +132,9 @@ class GateInterp:
             if ct.endswith('Lit') or ct.endswith('Lit const') or 'opensmt::Lit' == ct.replace('const ', '').strip():
                 self.lits[st['n']] = self.lit(init, loopvar)
                 return
+            if 'Pterm' in ct and self.is_gate_pterm(init):
+                self.pterm_aliases.add(st['n'])
+                return
             if 'PTRef' in ct:
                 self.terms[st['n']] = self.term_sym(init, loopvar)
                 return
@@ -166,7 +176,16 @@ class GateInterp:
         raise Unmodelled('statement kind %s at line %s' % (k, st.get('ln')))
 
     def loop_var(self, lp):
-        """for (int i = 0; i < size; ++i) over all arguments of the gate"""
+        """for (int i = 0; i < size; ++i) over all arguments of the gate, or for (PTRef arg : getPterm(gate))"""
+        if lp.get('kind') == 'range':
+            if not self.is_gate_pterm(lp.get('range')):
+                raise Unmodelled('range loop over something other than the arguments of the gate (line %s)' % lp.get('ln'))
+            var = lp.get('var') or (lp.get('decl') or {}).get('n')
+            if not var:
+                # the loop variable declaration is the first statement the extractor emits for the range loop
+                raise Unmodelled('range loop variable not found (line %s)' % lp.get('ln'))
+            self.terms[var] = 'ai'
+            return '<range:%s>' % var
         if lp.get('kind') != 'for':
             raise Unmodelled('loop kind %s' % lp.get('kind'))
         init = lp.get('init')
@@ -188,9 +207,9 @@ class GateInterp:
             for st in self.f['body']['c']:
                 if isinstance(st, dict) and st.get('k') == 'decl' and st['n'] == e['n']:
                     i = see_through(st.get('init'))
-                    return isinstance(i, dict) and i.get('k') == 'call' and mname(i) in ('size', 'size_') and 'getPterm' in str(i.get('recv'))
+                    return isinstance(i, dict) and i.get('k') == 'call' and mname(i) in ('size', 'size_') and self.is_gate_pterm(i.get('recv'))
             return False
-        return isinstance(e, dict) and e.get('k') == 'call' and mname(e) in ('size', 'size_') and 'getPterm' in str(e.get('recv'))
+        return isinstance(e, dict) and e.get('k') == 'call' and mname(e) in ('size', 'size_') and self.is_gate_pterm(e.get('recv'))
 
 
 GATES = {
